@@ -239,10 +239,27 @@ func c02Restart(r *R) {
 				n++
 				r.c.Check(pt.RetDesc(0) == "nil" && pt.Count(r.p.Is(restartActs...)) == 0, "C02.4", fmt.Sprintf("terminated-path#%d", n), r.p.Pos(fn.Pos()),
 					"restart of a terminated channel is a successful no-op", "restart of a terminated channel returns "+pt.RetDesc(0)+" / acts: "+pt.Describe())
+				// nothing at all happens once the channel is found terminated: no event, no message
+				var after []string
+				seen := false
+				for _, ev := range pt.Evs {
+					name := r.p.CalleeName(ev.C)
+					if name == "channels.IsChannelTerminated" {
+						seen = true
+						continue
+					}
+					if seen && ev.Kind == "call" && !strings.HasPrefix(name, "(*go.uber.org/zap.") && !strings.HasSuffix(name, ".End") {
+						after = append(after, name)
+					}
+				}
+				r.c.Check(seen && len(after) == 0, "C02.4", fmt.Sprintf("terminated-path#%d/silent", n), r.p.Pos(fn.Pos()), "nothing is done for a terminated channel",
+					"restarting a terminated channel still does: "+strings.Join(after, ", "))
 			}
 			r.c.Floor("C02.4", n, 1, "terminated paths in RestartDataTransferChannel")
 		}
 	}
+	// events reach subscribers only through the state machines' notifier: nobody calls it directly
+	r.onlyCallers("C02.4", "(*impl.manager).notifier", 0, "(*impl.manager).notifier$bound")
 	// C02.5
 	vr := r.fn("C02.5", "impl", "manager", "validateRestartRequest")
 	if vr != nil {
